@@ -1,7 +1,7 @@
 (* Driver for the C07 models.  usage: modelrun_c07 acc|con|w < cases > results
    acc: <ipc 0|1> ; ops ; beh0 | beh1 ... ; accept4 answers ; alloc answers ; open answers ; kinds
         ops: Af Ab At C N T R<0|1> V<msg>/<msg>... (msg = ids separated by commas, - = none)
-   con: <tcp 0|1> ; ops ; behs ; socket answers ; connect answers ; SO_ERROR answers ; event bits
+   con: <tcp 0|1> <pipe-fix variant 0|1> ; ops ; behs ; socket answers ; connect answers ; SO_ERROR answers ; event bits
         ops: T B P<namelen> Q<flags>,<namelen>,<nul 0|1> C R
    w:   <stream><state><handle><api> ; <syscall answer>
    The output uses the trace tokens of harness/c07_accept.c and harness/c07_connect.c. *)
@@ -87,7 +87,9 @@ let con_case (line : string) : string =
                 o_ready = List.map (fun x -> x = "1") (split_on ' ' rd) } in
       let ops = List.map parse_cop (split_on ' ' ops) in
       let beh = behs_of parse_cop behs in
-      let (_, evs) = crun (cinit (tcp = "1") o) ops beh in
+      let (tcp, pfix) = match split_on ' ' tcp with
+        | [t; f] -> (t = "1", f = "1") | [t] -> (t = "1", false) | _ -> failwith "bad con head" in
+      let (_, evs) = crun (cinit pfix tcp o) ops beh in
       let buf = Buffer.create 256 in
       let add s = Buffer.add_string buf s; Buffer.add_char buf ' ' in
       List.iter (fun e ->
